@@ -67,5 +67,5 @@ def run(chk):
                            'o5m_resets', 'o5m_table_references', 'o5m_inline_strings', 'o5m_extra_datasets', 'o5m_wrapped_coordinate_deltas', 'o5c_deletes',
                            'o5m_files_with_table_wrap_around', 'o5m_references_to_table_entry_15000', 'o5m_files_without_end_marker', 'o5m_files_ending_in_dataset_of_1_to_12_bytes',
                            'o5m_files_of_at_most_24_bytes', 'xml_char_refs', 'xml_entities', 'xml_comments', 'xml_change_sections', 'xml_changeset_files',
-                           'opl_escapes', 'opl_redundant_escapes', 'opl_raw_utf8_characters', 'opl_comment_lines', 'opl_blank_lines',
+                           'opl_escapes', 'opl_ways_with_located_and_unlocated_node_refs', 'opl_redundant_escapes', 'opl_raw_utf8_characters', 'opl_comment_lines', 'opl_blank_lines',
                            'reader_pairs_compared', 'cross_tiny_data_sets'])
